@@ -685,8 +685,13 @@ class TransactionBuilder:
                 # Combine remainder of provided ADA with last MultiAsset for output
                 # There may be rare cases where adding ADA causes size exceeds limit
                 # We will revisit if it becomes an issue
-                if respect_min_utxo and change.coin < min_lovelace_post_alonzo(
-                    TransactionOutput(address, Value(0, multi_asset)), self.context
+                if change.coin < 0 or (
+                    respect_min_utxo
+                    and change.coin
+                    < min_lovelace_post_alonzo(
+                        TransactionOutput(address, Value(0, multi_asset)),
+                        self.context,
+                    )
                 ):
                     raise InsufficientUTxOBalanceException(
                         "Not enough ADA left to cover non-ADA assets in a change address"
